@@ -232,6 +232,71 @@ UNITS = [
       enforce=["rtr_receive_pdu"], kind="complete", native=None, timeout=1800, link=PKT_LINK, replace=["verif_fmt"],
       cbmc_flags=["--sat-solver", "cadical"],
       stubs=["tr_recv_all", "tr_send_all", "lrtr_dbg", "pthread_setcancelstate"]),
+    # ------------------------------------------------------------------ payload phase (C03 and clauses of C05 C06 C13 C14 C17)
+    U(id="store_4", props=["C03", "C05", "C06", "C13", "C14", "C17"], file="units/store.c", entry="h_store", tier="thorough",
+      enforce=[], checked_by_assertions=["rtr_sync_receive_and_store_pdus", "rtr_receive_pdu", "rtr_update_pfx_table", "rtr_undo_update_pfx_table",
+                                         "rtr_update_spki_table", "rtr_undo_update_spki_table", "rtr_store_prefix_pdu", "rtr_store_router_key_pdu"], need_classes=["assertion"],
+      replace=["verif_fmt", "rtr_send_error_pdu_from_host"],
+      kind="bounded: response of payload shape [4] + any terminal event", defines=["STORE_SHAPE=4"],
+      unwind_functions={"rtr_sync_receive_and_store_pdus": 3, "strlen": 70},
+      native=None, link=PKT_LINK, timeout=14000, object_bits=10, mem_gb=40,
+      stubs=["lrtr_malloc", "lrtr_realloc", "lrtr_free", "pfx_table_*", "spki_table_*", "lrtr_dbg", "pthread_setcancelstate"]),
+    U(id="store_44", props=["C03", "C05", "C06", "C13", "C14", "C17"], file="units/store.c", entry="h_store", tier="thorough",
+      enforce=[], checked_by_assertions=["rtr_sync_receive_and_store_pdus", "rtr_receive_pdu", "rtr_update_pfx_table", "rtr_undo_update_pfx_table",
+                                         "rtr_update_spki_table", "rtr_undo_update_spki_table", "rtr_store_prefix_pdu", "rtr_store_router_key_pdu"], need_classes=["assertion"],
+      replace=["verif_fmt", "rtr_send_error_pdu_from_host"],
+      kind="bounded: response of payload shape [4, 4] + any terminal event", defines=["STORE_SHAPE=4,4"],
+      unwind_functions={"rtr_sync_receive_and_store_pdus": 4, "strlen": 70},
+      native=None, link=PKT_LINK, timeout=14000, object_bits=10, mem_gb=40,
+      stubs=["lrtr_malloc", "lrtr_realloc", "lrtr_free", "pfx_table_*", "spki_table_*", "lrtr_dbg", "pthread_setcancelstate"]),
+    U(id="store_4446", props=["C03", "C05", "C06", "C13", "C14", "C17"], file="units/store.c", entry="h_store", tier="thorough",
+      enforce=[], checked_by_assertions=["rtr_sync_receive_and_store_pdus", "rtr_receive_pdu", "rtr_update_pfx_table", "rtr_undo_update_pfx_table",
+                                         "rtr_update_spki_table", "rtr_undo_update_spki_table", "rtr_store_prefix_pdu", "rtr_store_router_key_pdu"], need_classes=["assertion"],
+      replace=["verif_fmt", "rtr_send_error_pdu_from_host"],
+      kind="bounded: response of payload shape [4, 4, 4, 6] + any terminal event", defines=["STORE_SHAPE=4,4,4,6"],
+      unwind_functions={"rtr_sync_receive_and_store_pdus": 6, "strlen": 70},
+      native=None, link=PKT_LINK, timeout=14000, object_bits=10, mem_gb=40,
+      stubs=["lrtr_malloc", "lrtr_realloc", "lrtr_free", "pfx_table_*", "spki_table_*", "lrtr_dbg", "pthread_setcancelstate"]),
+    U(id="store_669", props=["C03", "C05", "C06", "C13", "C14", "C17"], file="units/store.c", entry="h_store", tier="thorough",
+      enforce=[], checked_by_assertions=["rtr_sync_receive_and_store_pdus", "rtr_receive_pdu", "rtr_update_pfx_table", "rtr_undo_update_pfx_table",
+                                         "rtr_update_spki_table", "rtr_undo_update_spki_table", "rtr_store_prefix_pdu", "rtr_store_router_key_pdu"], need_classes=["assertion"],
+      replace=["verif_fmt", "rtr_send_error_pdu_from_host"],
+      kind="bounded: response of payload shape [6, 6, 9] + any terminal event", defines=["STORE_SHAPE=6,6,9"],
+      unwind_functions={"rtr_sync_receive_and_store_pdus": 5, "strlen": 70},
+      native=None, link=PKT_LINK, timeout=14000, object_bits=10, mem_gb=40,
+      stubs=["lrtr_malloc", "lrtr_realloc", "lrtr_free", "pfx_table_*", "spki_table_*", "lrtr_dbg", "pthread_setcancelstate"]),
+    U(id="store_49", props=["C03", "C05", "C06", "C13", "C14", "C17"], file="units/store.c", entry="h_store", tier="thorough",
+      enforce=[], checked_by_assertions=["rtr_sync_receive_and_store_pdus", "rtr_receive_pdu", "rtr_update_pfx_table", "rtr_undo_update_pfx_table",
+                                         "rtr_update_spki_table", "rtr_undo_update_spki_table", "rtr_store_prefix_pdu", "rtr_store_router_key_pdu"], need_classes=["assertion"],
+      replace=["verif_fmt", "rtr_send_error_pdu_from_host"],
+      kind="bounded: response of payload shape [4, 9] + any terminal event", defines=["STORE_SHAPE=4,9"],
+      unwind_functions={"rtr_sync_receive_and_store_pdus": 4, "strlen": 70},
+      native=None, link=PKT_LINK, timeout=14000, object_bits=10, mem_gb=40,
+      stubs=["lrtr_malloc", "lrtr_realloc", "lrtr_free", "pfx_table_*", "spki_table_*", "lrtr_dbg", "pthread_setcancelstate"]),
+    U(id="store_4444", props=["C03", "C05", "C06", "C13", "C14", "C17"], file="units/store.c", entry="h_store", tier="thorough",
+      enforce=[], checked_by_assertions=["rtr_sync_receive_and_store_pdus", "rtr_receive_pdu", "rtr_update_pfx_table", "rtr_undo_update_pfx_table",
+                                         "rtr_update_spki_table", "rtr_undo_update_spki_table", "rtr_store_prefix_pdu", "rtr_store_router_key_pdu"], need_classes=["assertion"],
+      replace=["verif_fmt", "rtr_send_error_pdu_from_host"],
+      kind="bounded: response of payload shape [4, 4, 4, 4] + any terminal event", defines=["STORE_SHAPE=4,4,4,4"],
+      unwind_functions={"rtr_sync_receive_and_store_pdus": 6, "strlen": 70},
+      native=None, link=PKT_LINK, timeout=14000, object_bits=10, mem_gb=40,
+      stubs=["lrtr_malloc", "lrtr_realloc", "lrtr_free", "pfx_table_*", "spki_table_*", "lrtr_dbg", "pthread_setcancelstate"]),
+    U(id="store_4469", props=["C03", "C05", "C06", "C13", "C14", "C17"], file="units/store.c", entry="h_store", tier="thorough",
+      enforce=[], checked_by_assertions=["rtr_sync_receive_and_store_pdus", "rtr_receive_pdu", "rtr_update_pfx_table", "rtr_undo_update_pfx_table",
+                                         "rtr_update_spki_table", "rtr_undo_update_spki_table", "rtr_store_prefix_pdu", "rtr_store_router_key_pdu"], need_classes=["assertion"],
+      replace=["verif_fmt", "rtr_send_error_pdu_from_host"],
+      kind="bounded: response of payload shape [4, 4, 6, 9] + any terminal event", defines=["STORE_SHAPE=4,4,6,9"],
+      unwind_functions={"rtr_sync_receive_and_store_pdus": 6, "strlen": 70},
+      native=None, link=PKT_LINK, timeout=14000, object_bits=10, mem_gb=40,
+      stubs=["lrtr_malloc", "lrtr_realloc", "lrtr_free", "pfx_table_*", "spki_table_*", "lrtr_dbg", "pthread_setcancelstate"]),
+    U(id="store_06", props=["C03", "C05", "C06", "C13", "C14", "C17"], file="units/store.c", entry="h_store", tier="thorough",
+      enforce=[], checked_by_assertions=["rtr_sync_receive_and_store_pdus", "rtr_receive_pdu", "rtr_update_pfx_table", "rtr_undo_update_pfx_table",
+                                         "rtr_update_spki_table", "rtr_undo_update_spki_table", "rtr_store_prefix_pdu", "rtr_store_router_key_pdu"], need_classes=["assertion"],
+      replace=["verif_fmt", "rtr_send_error_pdu_from_host"],
+      kind="bounded: response of payload shape [0, 6] + any terminal event", defines=["STORE_SHAPE=0,6"],
+      unwind_functions={"rtr_sync_receive_and_store_pdus": 4, "strlen": 70},
+      native=None, link=PKT_LINK, timeout=14000, object_bits=10, mem_gb=40,
+      stubs=["lrtr_malloc", "lrtr_realloc", "lrtr_free", "pfx_table_*", "spki_table_*", "lrtr_dbg", "pthread_setcancelstate"]),
     # ------------------------------------------------------------------ synchronisation layer (C05, C07, C13)
     U(id="cache_response", props=["C05", "C07", "C14"], file="units/sync.c", entry="h_cache_response", defines=["H_ENTRY=h_cache_response"],
       enforce=["rtr_handle_cache_response_pdu"], replace=["rtr_send_error_pdu_from_host"], kind="complete", native=None,
